@@ -186,6 +186,11 @@ func oneSleep(r *R) {
 			r.Fault("ctx_precancelled")
 		}
 	}
+	if ctx != root && !hasDeadline && kind != 11 && r.Choose(6, "own-err") == 5 {
+		// the caller's own Context implementation, whose Err() is a value of its own
+		ctx.OwnErr()
+		r.Probe("sleep-context-with-own-error-value")
+	}
 	cancelAfter := time.Duration(0)
 	if kind == 6 || kind == 7 || kind == 9 {
 		cancelAfter = pos / time.Duration(2+r.Choose(3, "cfrac"))
